@@ -1,4 +1,5 @@
 mod c04;
+mod c06;
 mod c13;
 mod c15;
 mod c16;
@@ -60,6 +61,7 @@ fn main() {
 		"c04" => c04::run(&a),
 		"c15" => c15::run(&a),
 		"c13" => c13::run(&a),
+		"c06" => c06::run(&a),
 		"c16" => c16::run(&a),
 		"c01" => run_generic(Mode::C01, &a, "c01", gen_rule),
 		"c02" => run_generic(Mode::C02, &a, "c02", gen_rule),
